@@ -13,6 +13,12 @@ Implementation driven (all real code, in a throw-away sandbox tree under tempfil
     directory by Job.stageIn or by repeated StageReference calls, with colliding and nested names and with links
     already in the directory (Path.Model.stage_seq).
 
+  * several COMPONENTS staged by this one process, each into its own working directory (<sandbox>/t/work, t/wb, t/wc),
+    referencing the SAME archive file (written once, same path / mtime / size; also reached through a symbolic link, a
+    hard link or a copy2 of it), and one component that references an archive again after its directory changed: every
+    component is compared with Path.Model.stage_seq over what ITS directory held (Path.Model.stage_components), its
+    outside listing covers the directories of the other components.
+
 Predicate (the property as stated): a recursive listing (names, kinds, sizes, contents digest, link
 targets) of everything in the sandbox OUTSIDE the target directory is the same before and after;
 every input that lexically leaves the target (member name, link target, manifest key) is refused, and
@@ -45,6 +51,9 @@ ASSUMPTIONS = [
     'stops at the first failure) / StageReference called once per reference; what the directory holds before and after '
     '(every entry, kind, lexically normalised link target) is read by the harness and compared with Path.Model.stage_seq; '
     'what tarfile does when an accepted member meets an existing entry of another kind is not modelled (step marked inexact)',
+    'several components in one process: staged one after the other (not concurrently) by this process, which also ran every '
+    'earlier case — whatever the staging code keeps at module level is carried from case to case, as in a long-lived '
+    'workflow process; the archive files of a multi-component case are written once and not touched again',
     'Job.stageIn is driven with a duck-typed job (type, references, working directory); the DataReference objects are '
     'duck-typed (method, resolve(), stringRepresentation)',
     'ExperimentPackage is built over a duck-typed configuration (location, isExperimentPackageDirectory, manifestData)',
@@ -1465,7 +1474,12 @@ def run(ctx):
                 '(copy / copyout / link / extract) staged into one working directory, via Job.stageIn and via repeated '
                 'StageReference: all ordered pairs over the steps that produce the same name (file, directory, link, archive '
                 'member on / below / through it), each step after each thing found in the directory (links outside / inside / '
-                'dangling / looping, files, directories holding links), random longer ones; non-trivial = has a link, a '
+                'dangling / looping, files, directories holding links), random longer ones; the SAME archive file referenced '
+                'more than once in the process: 2..3 components with their own working directories (every archive of the '
+                'colliding-name alphabets into an empty directory and into one prepared in every way that puts a link / file / '
+                'directory at or on the way to the name, in both orders; archives with absolute names inside one of the '
+                'directories; random ones; the file reached by its path, a symbolic link, a hard link, a copy2), and one '
+                'component that references an archive again before / after every other step; non-trivial = has a link, a '
                 'parent segment, an absolute name or a nested key; distinct by the canonical input')
     quick = ctx.tier == 'quick'
     tar_cases = [{'members': m, 'label': 'corpus', 'via_job': i % 2 == 0} for i, m in enumerate(CORPUS_TAR)]
